@@ -77,4 +77,6 @@ def run(tier, seed):
             res.disagreements.append({"driver": "server(segmentation)", "case": describe(c, e), "model": pretty(dec(m)), "impl": pretty(dec(sd.enc_obs(o)))})
     res.rule += (" | plus segmentation independence: all 2^(n-1) segmentations of requests of <= %d bytes, all 1%s-cut segmentations of the representative "
                  "requests and of 1020..1030-byte lines, random multi-cut segmentations, each compared (Spec.C07.same) with the single-read run" % (maxlen, "" if tier == "quick" else "/2"))
+    import tlsextra
+    tlsextra.pump_segmentation_cases(res, rng, tier)
     return res
